@@ -174,7 +174,7 @@ func genMsg(r *rand.Rand, kind string, tag int) *dynamicpb.Message {
 func encodeMsg(codec string, m proto.Message) []byte {
 	switch codec {
 	case "proto":
-		b, err := proto.Marshal(m)
+		b, err := proto.MarshalOptions{Deterministic: true}.Marshal(m)
 		if err != nil {
 			panic(err)
 		}
